@@ -171,6 +171,8 @@ type InstanceResult struct {
 	}
 	WallS float64
 	Err   string
+	Witness     map[string]uint64
+	WitnessMeta map[string]InputMeta
 }
 
 type ReplayFile struct {
@@ -323,6 +325,7 @@ func (d *Driver) runInstance(in *Instance) *InstanceResult {
 		ex.Run(fn)
 	}()
 	res.Findings = ex.Findings
+	res.Witness, res.WitnessMeta = ex.Witness, ex.WitnessMeta
 	for _, f := range ex.Findings {
 		res.Metas[f.Key()] = ex.findingMeta[f]
 	}
@@ -723,6 +726,54 @@ func (d *Driver) Run() int {
 		violationLines = append(violationLines, "  "+firstPanicLine(j.out.Output))
 	}
 
+	// translator validation: replay one satisfying input of a completed path per harness (up to 2) natively;
+	// the compiled code must agree with the executor that no assertion fails and nothing panics
+	witnessOK, witnessRun := 0, 0
+	if os.Getenv("VERIF_NO_WITNESS") == "" {
+		perH := map[string]int{}
+		type wjob struct {
+			r    *InstanceResult
+			path string
+			out  replayOutcome
+		}
+		var wjobs []*wjob
+		for _, r := range results {
+			if r.Witness == nil || len(r.Findings) > 0 || r.Err != "" || perH[r.Inst.H.Name] >= 2 {
+				continue
+			}
+			perH[r.Inst.H.Name]++
+			rf := ReplayFile{Property: prop, Harness: r.Inst.H.Name, Pkg: r.Inst.H.Pkg, Func: r.Inst.H.Func, Files: r.Inst.H.Files, Kind: "witness", Label: "completed path", Params: r.Inst.Params, Values: modelToValues(r.Witness, r.WitnessMeta)}
+			b, _ := json.MarshalIndent(rf, "", " ")
+			path := filepath.Join(d.workDir(), fmt.Sprintf("witness-%s-%d.json", r.Inst.H.Name, perH[r.Inst.H.Name]))
+			os.WriteFile(path, b, 0o644)
+			wjobs = append(wjobs, &wjob{r: r, path: path})
+		}
+		var wwg sync.WaitGroup
+		wsem := make(chan struct{}, 8)
+		for _, j := range wjobs {
+			wwg.Add(1)
+			go func(j *wjob) {
+				defer wwg.Done()
+				wsem <- struct{}{}
+				defer func() { <-wsem }()
+				j.out = d.replay(j.r.Inst.H, j.path, 60*time.Second)
+			}(j)
+		}
+		wwg.Wait()
+		for _, j := range wjobs {
+			witnessRun++
+			if j.out.Err != "" && !j.out.Reproduced && strings.Contains(j.out.Err, "building replay binary") {
+				mismatchLines = append(mismatchLines, "ENGINE-MISMATCH cannot build native replay binary: "+tail(j.out.Err, 600))
+				continue
+			}
+			if j.out.Reproduced || j.out.Err != "" {
+				mismatchLines = append(mismatchLines, fmt.Sprintf("ENGINE-MISMATCH witness of %s did not run clean natively (%s)\n%s", j.r.Inst, j.out.Err, tail(j.out.Output, 800)))
+				continue
+			}
+			witnessOK++
+		}
+	}
+
 	wall := time.Since(t0).Seconds()
 	status := "held"
 	code := 0
@@ -770,7 +821,8 @@ func (d *Driver) Run() int {
 		"samples":                       sampleVals,
 		"states":                        tot.paths,
 		"transitions":                   tot.queries,
-		"traces_validated_against_impl": len(jobs),
+		"traces_validated_against_impl": witnessOK + len(jobs),
+		"native_witness_replays":        fmt.Sprintf("%d of %d completed-path models re-executed natively without assertion failure or panic (translator validation); %d counterexample replays", witnessOK, witnessRun, len(jobs)),
 		"instances":                     len(insts),
 		"paths_explored":                tot.paths,
 		"paths_completed":               tot.normal,
